@@ -19,6 +19,8 @@ from io import BytesIO
 from .. import common, tlc, tlaval, trace
 
 SLOW = ("signal_range", "real_pictures")
+# families built on mid-grey sources (cheap): run on many extra slice geometries / byte budgets
+LIGHT = ("slice_padding_data", "slice_prefix_bytes", "padding_data", "slice_size_scaler", "absent_next_parse_offset", "dangling_bounded_block_data")
 
 
 def _tests_path():
@@ -76,7 +78,7 @@ def secondary(rnd, plain=False):
 
     if plain:
         return {"size": (8, 4), "cdf": 0, "bits": "8", "wavelet": 4, "wavelet_ho": 4, "depth": 1, "depth_ho": 0, "slices": (2, 1), "picture_bytes": 24, "qm": None}
-    size, slices = rnd.choice([((8, 4), (2, 1)), ((8, 4), (2, 1)), ((16, 8), (2, 2)), ((12, 6), (3, 1))])
+    size, slices = rnd.choice([((8, 4), (2, 1)), ((8, 4), (2, 1)), ((16, 8), (2, 2)), ((12, 6), (3, 1)), ((12, 8), (3, 2))])
     if rnd.random() < 0.25:
         # asymmetric transform with a custom quantisation matrix (no default exists)
         depth, depth_ho = 1, rnd.choice([1, 2])
@@ -102,7 +104,8 @@ def secondary(rnd, plain=False):
         "depth": depth,
         "depth_ho": depth_ho,
         "slices": slices,
-        "picture_bytes": nsl * rnd.choice([12, 16, 24, 40]),
+        # also budgets that are NOT a multiple of the slice count: slices of unequal size (13.5.3.2 / 13.5.4)
+        "picture_bytes": nsl * rnd.choice([12, 16, 24, 40]) + rnd.choice([0, 0, 1, nsl - 1, nsl // 2 + 1]),
         "qm": qm,
     }
 
@@ -285,12 +288,31 @@ def run(ctx):
             out_of_scope += 1
     if len(configs) < ctx.pick(5, 40):
         raise RuntimeError("only %d valid configurations could be instantiated" % len(configs))
+    # extra "light" configurations: lossy LD / HQ with slice grids and byte budgets that make slices unequal,
+    # on which only the cheap mid-grey families are run
+    light_idx = set()
+    lcands = []
+    for i in range(ctx.pick(40, 200)):
+        prof = "ld" if i % 2 == 0 else "hq"
+        ab = {"profile": prof, "lossless": False, "fragments": i % 7 == 3, "fields": i % 5 == 4}
+        size, slices = rnd.choice([((8, 4), (2, 1)), ((16, 8), (2, 2)), ((12, 6), (3, 1)), ((12, 8), (3, 2)), ((16, 4), (4, 1))])
+        nsl = slices[0] * slices[1]
+        sec = {"size": size, "cdf": rnd.choice([0, 1, 2]), "bits": rnd.choice(["8", "10"]), "wavelet": 4, "wavelet_ho": 4, "depth": 1, "depth_ho": 0, "slices": slices,
+               "picture_bytes": nsl * rnd.choice([8, 12, 16, 33]) + rnd.randrange(0, 2 * nsl), "qm": None}
+        lcands.append((ab, sec))
+    lvalid = common.pmap(check_valid, lcands)
+    for (ab, sec), (ok, err) in zip(lcands, lvalid):
+        if ok and len(light_idx) < ctx.pick(24, 120):
+            light_idx.add(len(configs))
+            configs.append((ab, sec))
     from vc2_conformance.test_cases import DECODER_TEST_CASE_GENERATOR_REGISTRY
 
     fams = [f.__name__ for f in DECODER_TEST_CASE_GENERATOR_REGISTRY.iter_registered_functions()]
     jobs = []
     for ci, (ab, sec) in enumerate(configs):
         for fam in fams:
+            if ci in light_idx and fam not in LIGHT:
+                continue
             if ctx.quick and fam in SLOW and ci >= 2:
                 continue
             jobs.append((ci, (ab, sec, fam, None)))
@@ -372,6 +394,7 @@ def run(ctx):
             "exhaustive": False,
             "exhaustive_note": "TLC enumerates all 12 abstract configurations x 20 families x catalogued sub-cases (642 expectations); the concrete configuration space is sampled: %d configurations (%d per abstract configuration), secondary parameters by seed" % (len(configs), per_abs),
             "configurations": len(configs),
+            "light_configurations_unequal_slices": len(light_idx),
             "abstract_configurations_covered": len(set(abstract_key(ab) for ab, _ in configs)),
             "out_of_scope": out_of_scope,
             "families_run": len(fams),
